@@ -1009,4 +1009,20 @@ SEEDS = [
          old="""                self.fix_red_black_properties_after_delete(NIL_INDEX);
                 self.fix_parents_nil_child();""",
          new="""                self.fix_red_black_properties_after_delete(NIL_INDEX);""", note='the sentinel stays linked'),
+
+    dict(id='PB20-list-export-reversed', props=['C07', 'C13'], file='src/key/array.rs',
+         old="""        self.buffer.iter().map(|e|e.val).collect()""",
+         new="""        self.buffer.iter().rev().map(|e|e.val).collect()""", note='the list exports in decreasing key order'),
+    dict(id='PB21-list-export-skips-first', props=['C07', 'C13'], file='src/key/array.rs',
+         old="""        self.buffer.iter().map(|e|e.val).collect()""",
+         new="""        self.buffer.iter().skip(1).map(|e|e.val).collect()""", note='the list export drops the smallest entry'),
+    dict(id='PB22-tree-export-takes-time-zero', props=['C07'], file='src/key/array.rs',
+         old="""        self.create_ordered_list(time)""",
+         new="""        let _ = time;
+        self.create_ordered_list(E::max_expiration())""", note='the tree export filters with another time than the caller gave'),
+    dict(id='PB23-keylist-get-value-other-time', props=['C13', 'C20'], file='src/key/list.rs',
+         old="""    fn get_value(&mut self, time: E, key: K) -> Option<V> {
+        self.clear_expired(time);""",
+         new="""    fn get_value(&mut self, time: E, key: K) -> Option<V> {
+        self.clear_expired(key.expiration().min(time));""", note='the purge runs with a time that can lie before the query time'),
 ]
